@@ -16,6 +16,7 @@ mod mon_c17;
 mod mon_c18;
 mod mon_c20;
 mod rng;
+mod scen;
 mod stubs;
 mod world;
 
@@ -82,6 +83,7 @@ fn main() {
             let mut rng = Rng::new(seed ^ 0x5EED_0000 ^ prop.bytes().fold(0u64, |a, b| a.wrapping_mul(131).wrapping_add(b as u64)));
             let mut rep = mon::Report::default();
             match prop {
+                "IX" => scen::run(&mut rng, n, &mut rep),
                 "C02" => mon_c02::run(&mut rng, n, &mut rep),
                 "C03" => mon_c03::run(&mut rng, n, &mut rep),
                 "C15" => mon_c15::run(&mut rng, n, &mut rep),
